@@ -27,11 +27,30 @@ def answer (toks : List String) : List String :=
   let fwd := forwardDynamics abi bias f
   let udot := (udotOf nu fwd).toList
   let inv := inverseDynamics roots bias f udotK
+  -- documented argument conventions: zero-length arrays mean all-zero (combination k: bit0 f, bit1 F, bit2 udot)
+  let zeroU : Array Float := Array.replicate nu 0
+  let biasNoF : Array (Bias Float) := bias.map (fun x => { x with F := SV.zero })
+  let argconv : List Float := (List.range 8).foldr (fun k acc =>
+      let fz := k % 2 == 1
+      let bz := (k / 2) % 2 == 1
+      let uz := (k / 4) % 2 == 1
+      (residualOf nu (inverseDynamics roots (if bz then biasNoF else bias) (if fz then zeroU else f)
+          (if uz then zeroU else udotK))).toList ++ acc) []
+  let accOf (r : List (Body Float × SV Float × SV Float × List Float)) : List Float :=
+    h.bodies.foldr (fun (b : Body Float) (acc : List Float) =>
+      match r.find? (fun x => x.1.idx == b.idx) with
+      | some x => x.2.1.toList ++ acc
+      | none => acc) []
+  -- calcTreeEquivalentMobilityForces(F) = J'F - C = -(residual at udot = 0, f = 0, body forces F)
+  let treeEq := (residualOf nu (inverseDynamics roots bias zeroU zeroU)).toList.map (fun x => -x)
   [ outLine "fwd" udot,
     outLine "fwdA" (C02.accelList fwd h.bodies),
     outLine "inv" (residualOf nu inv).toList,
     outLine "realize" udot,
-    outLine "jt" (multiplyByJT roots nu fB).toList ]
+    outLine "jt" (multiplyByJT roots nu fB).toList,
+    outLine "argconv" argconv,
+    outLine "accUdot" (accOf inv ++ accOf (inverseDynamics roots bias f zeroU)),
+    outLine "treeEquiv" treeEq ]
 
 def main : IO Unit := do
   let lines ← readStdinLines
@@ -41,4 +60,5 @@ def main : IO Unit := do
       out.putStrLn ln.trimAscii.toString
       match tokens ln with
       | "I" :: "fwdinv" :: rest => for o in answer rest do out.putStrLn o
+      | "I" :: "summary" :: _ => out.putStrLn "O summary 1"
       | _ => out.putStrLn "O ERR"
